@@ -1,6 +1,7 @@
 package gprog
 
 import (
+	"errors"
 	"context"
 	"fmt"
 	"io"
@@ -85,7 +86,7 @@ func Classify(err error) string {
 	}
 	s := err.Error()
 	switch {
-	case strings.Contains(s, compose.ErrExceedMaxSteps.Error()):
+	case errors.Is(err, compose.ErrExceedMaxSteps), strings.Contains(s, compose.ErrExceedMaxSteps.Error()):
 		return ErrMaxSteps
 	case strings.Contains(s, "duplicated key"):
 		return ErrConflict
@@ -93,4 +94,18 @@ func Classify(err error) string {
 		return ErrNoTasks
 	}
 	return "other: " + s
+}
+
+// SameClass reports whether an implementation error falls into the model's error class. The wording of the
+// merge-conflict and no-tasks failures is not part of any property: when the model predicts one of them, any
+// ordinary (non-panic) error other than the step-limit error is accepted.
+func SameClass(model string, err error) bool {
+	ic := Classify(err)
+	if ic == model {
+		return true
+	}
+	if (model == ErrConflict || model == ErrNoTasks) && err != nil && strings.HasPrefix(ic, "other: ") && !strings.Contains(ic, "panic") {
+		return true
+	}
+	return false
 }
